@@ -32,7 +32,7 @@ ASSUMPTIONS = ["ref/walker.py reads library objects faithfully by attribute acce
 REAL_VS_STUB = {"real": ["DomainExporter.export_domain/extract_domain, Action.effects_to_pddl, Precondition printers (incl. "
                          "sympy simplification of nested conditions), DomainParser, CPython TextIOWrapper/BufferedWriter"],
                 "stub": ["__hash__ seam", "raw file sink (fault-injecting, persists the planned prefix to a real tmpfs file)"]}
-TECHNIQUE = "deterministic simulation: seeded export iteration orders + torn/failed/crashed export and read faults, retry; structural walker + reference interpreter as oracle"
+TECHNIQUE = "deterministic simulation: seeded export iteration orders + torn/failed/crashed export and read faults, retry, same-size and shorter overwrites under a file clock that does not advance, model revised in place between two exports; structural walker + reference interpreter as oracle"
 DESIGN_REF = "DESIGN.md §5 C08, §3.3"
 LEVEL_TEXT = ("seeded exploration of (domain x hash schedule x fault plan): acknowledged exports must re-parse to an equal "
               "vocabulary and equal behaviour, unacknowledged ones must be rejected or equal, and a retry after faults stop "
